@@ -49,6 +49,9 @@ func (w *World) startFeed(fc FeedCfg, backfill uint64, dump bool, checkpoint str
 	if checkpoint == "cp" {
 		id = "cpfeed" // (C15's scripts resume one feed by its ID)
 	}
+	if checkpoint == "cp16s" {
+		id = "shared" // (C16: several live feeds with the same CheckpointPrefix:ID at once)
+	}
 	if checkpoint == "ck" {
 		id = "c11" // (CpDumpStep: one feed ID for every collection)
 	}
@@ -514,6 +517,9 @@ func (r *Run) compareFeed(fi int, f *Collector, evs []sgbucket.FeedEvent) {
 	for _, e := range exp {
 		k := kc{collID(e.C), e.Key, e.St.Cas}
 		is := idx[k]
+		if len(is) == 0 && e.Optional {
+			continue
+		}
 		if len(is) == 0 {
 			r.Devs = append(r.Devs, Deviation{Clause: "event.missing", Props: c08, Step: e.Step,
 				Msg: fmt.Sprintf("feed %d (%+v): no event for the %s of %s/%q at step %d (cas %#x)", fi, f.Cfg, e.OpK, w.Cfg.Colls[e.C], e.Key, e.Step, e.St.Cas),
